@@ -261,6 +261,9 @@ class Decl:
                     pend[leaf] = (pa, pc_ + 1)
                     pc = 0 if self.zero_interval else pend[leaf][1]
                     out.append("    if %s.get_sample_count() != %d { r.fail(%d, \"auto-flush-local-get-wrong\", format!(\"get_sample_count = {}, pending observations are %d\", %s.get_sample_count())); }" % (expr, pc, self.idx, pc, expr))
+                    # the pending sum: the observed amounts are integers >= 1, the timed closure adds a few nanoseconds
+                    ps = 0 if self.zero_interval else pend[leaf][0]
+                    out.append("    if (%s.get_sample_sum() - %d.0).abs() >= 0.5 { r.fail(%d, \"auto-flush-local-get-wrong\", format!(\"get_sample_sum = {}, pending observations sum to %d (+ a timed closure)\", %s.get_sample_sum())); }" % (expr, ps, self.idx, ps, expr))
                 out.append("    r.part.count(\"auto_flush_getter_checks\", 1);")
                 if rng.random() < 0.2:
                     out.append("    %s.flush();" % expr)
